@@ -36,6 +36,9 @@ def cms_grid(rng, randomise):
         {"kind": "linear", "width": w + 1, "depth": d},
         {"kind": "linear", "width": w, "depth": d + 1},
         {"kind": "linear", "width": w + 256, "depth": d},
+        {"kind": "linear", "width": 2 * w, "depth": d},      # same number of cells as the next one,
+        {"kind": "linear", "width": w, "depth": 2 * d},      # different width and depth
+        {"kind": "linear", "width": d, "depth": w},          # transposed shape of the base configuration
         {"kind": "linear", "width": w + 2**16, "depth": d},
     ]
     for kind, mc, nr in (("log16", mc16, nr16), ("log8", mc8, nr8)):
@@ -55,6 +58,8 @@ def cms_grid(rng, randomise):
         g.append(dict(base, max_count=mc + 2**16))
         g.append(dict(base, width=w + 256))
         g.append(dict(base, depth=d + 256))
+        g.append(dict(base, width=2 * w))
+        g.append(dict(base, depth=2 * d))
     return g
 
 
@@ -69,6 +74,10 @@ def hll_grid(rng, randomise):
         {"kind": "hll", "p": p, "seed": sd + 2**32},  # differs only above bit 32
         {"kind": "hll", "p": p, "seed": sd + 2**63},
         {"kind": "hll", "p": p, "seed": sd + 256},
+        {"kind": "hll", "p": p, "seed": sd + 2**63 + 1},     # equal to sd + 2^63 once rounded to a float64
+        {"kind": "hll", "p": p, "seed": 2**64 - 2},          # likewise next to 2^64 - 1
+        {"kind": "hll", "p": p, "seed": 2**53 + 1},
+        {"kind": "hll", "p": p, "seed": 2**53},
         {"kind": "hll", "p": p, "seed": sd + 2**16},
         {"kind": "hll", "p": p, "seed": 2**64 - 1},
     ]
@@ -87,6 +96,8 @@ def hh_grid(rng, randomise):
         dict(base, max_key_len=max(1, L - 1) if L > 1 else 3),
         dict(base, width=w + 256),
         dict(base, depth=d + 256),
+        dict(base, width=2 * w),
+        dict(base, depth=2 * d),
         dict(base, phi=0.013),  # phi is not merge-relevant: must merge with base
     ]
 
